@@ -80,6 +80,8 @@ pub struct GenCfg {
     pub empty_recs: bool,
     /// allow term id 0 / border ids
     pub allow_zero_id: bool,
+    /// allow replaced_by ids that do not resolve to a term of the ontology
+    pub dangling_replacement: bool,
 }
 
 impl Default for GenCfg {
@@ -97,6 +99,7 @@ impl Default for GenCfg {
             max_recs: 8,
             empty_recs: true,
             allow_zero_id: true,
+            dangling_replacement: true,
         }
     }
 }
@@ -190,7 +193,9 @@ pub fn gen_graph(rng: &mut Rng, n: usize, shape: Shape) -> Graph {
                 }
             }
             for i in base..n {
-                let k = rng.urange(1, base.min(14));
+                // up to 14 direct parents, and for large enough graphs sometimes more than the inline
+                // capacity (30) of the parent group
+                let k = if base > 34 && (i == n - 1 || rng.chance(1, 3)) { rng.urange(31, base.min(40)) } else { rng.urange(1, base.min(14)) };
                 for p in rng.sample_indices(base, k) {
                     add(&mut parents, i, p);
                 }
@@ -398,6 +403,7 @@ pub fn gen_records(rng: &mut Rng, f: &mut FactSet, cfg: &GenCfg) {
                 1 => 65_536 * (rng.range(1, 3) as u32) + rng.range(1, u64::from(pool_hi)) as u32,
                 2 => (1u32 << [16, 24, 31][rng.usize_below(3)]) + rng.range(0, 3) as u32,
                 3 => u32::MAX - rng.range(0, 3) as u32,
+                4 => 0,
                 _ => rng.range(1, u64::from(pool_hi)) as u32,
             };
             rec_ids.insert(id);
@@ -409,6 +415,7 @@ pub fn gen_records(rng: &mut Rng, f: &mut FactSet, cfg: &GenCfg) {
                 1 => format!("omim {} {}", rid, gen_name(rng, cfg.names)),
                 _ => format!("orpha {} {}", rid, gen_name(rng, cfg.names)),
             };
+            let name = if rng.chance(1, 40) { String::new() } else { name };
             let mut terms: Vec<u32> = Vec::new();
             let nt = if cfg.empty_recs && rng.chance(1, 6) {
                 0
@@ -457,11 +464,14 @@ pub fn gen_facts(rng: &mut Rng, cfg: &GenCfg) -> FactSet {
     for _attempt in 0..50 {
         let shape = cfg.shape.unwrap_or_else(|| *rng.pick(&ALL_SHAPES));
         let mut n = rng.urange(cfg.n_min.max(if cfg.defaults { 2 } else { 1 }), cfg.n_max.max(2));
+        let id_mode = cfg.id_mode.unwrap_or_else(|| *rng.pick(&ALL_ID_MODES));
+        if shape == Shape::Wide && (id_mode == IdMode::Dense || rng.chance(1, 3)) {
+            n = rng.urange(56, 70); // enough potential parents for a term with more than 30 of them
+        }
         if shape == Shape::Deep {
             // deep chains cross the inline capacity of the ancestor small-vector (30) twice over
             n = rng.urange(63, 80);
         }
-        let id_mode = cfg.id_mode.unwrap_or_else(|| *rng.pick(&ALL_ID_MODES));
         let mut g = gen_graph(rng, n, shape);
         if cfg.defaults && n > 1 {
             // node 1 is HP:118; usually a child of HP:1, sometimes not (C19 variants)
@@ -496,7 +506,8 @@ pub fn gen_facts(rng: &mut Rng, cfg: &GenCfg) -> FactSet {
             if rng.chance(1, 30) && !(cfg.defaults && (*id == 1 || *id == 118)) {
                 name = String::new(); // empty names are legal in the binary format
             }
-            if !name.is_empty() && !used_names.insert(name.clone()) {
+            if !name.is_empty() && !used_names.insert(name.clone()) && !rng.chance(1, 3) {
+                // two terms may share a name; mostly they are made distinct
                 name.push_str(&format!(" {i}"));
                 used_names.insert(name.clone());
             }
@@ -525,6 +536,14 @@ pub fn gen_facts(rng: &mut Rng, cfg: &GenCfg) -> FactSet {
                     // id 0 cannot be named as a replacement: the binary format encodes "none" as 0
                     if r != i && ids[r] != 0 {
                         f.terms[i].replaced_by = Some(ids[r]);
+                    }
+                }
+            }
+            if cfg.dangling_replacement {
+                for i in n..total {
+                    if rng.chance(1, 10) {
+                        // a replacement that names no term of this ontology
+                        f.terms[i].replaced_by = Some(*rng.pick(&[9_999_990u32, 123_456, u32::MAX, 10_000_000]));
                     }
                 }
             }
